@@ -900,8 +900,8 @@ def coq_part(ctx, fails, table, cases=None):
         for i in range(ncase):
             otype = ['binary', 'normal'][i % 2]
             df, meta = datagen.cat_frame(ctx.rng, n_cov=ctx.rng.choice([1, 1, 2]), arities=None, cell=(2, 4), outcome=otype)
-            if meta['n'] > 56:
-                df, meta = datagen.cat_frame(ctx.rng, n_cov=1, cell=(2, 4), outcome=otype)
+            if meta['n'] > 36:      # exact evaluation of the variances in Coq grows steeply with the number of rows
+                df, meta = datagen.cat_frame(ctx.rng, n_cov=1, arities=[ctx.rng.choice([2, 3])], cell=(2, 4), outcome=otype)
             perm = list(range(len(df)))
             ctx.rng.shuffle(perm)
             c, d = ctx.rng.choice([-2.5, -0.5, 0.25, 4.0]), ctx.rng.choice([0.0, 7.25, -3.0])
